@@ -27,7 +27,12 @@ Theorem source_prover_verifier_agree :
   forallb (pair_agrees transcripts) prover_verifier_pairs = true /\ session_tagged transcripts = true.
 Proof. vm_compute. split; reflexivity. Qed.
 
+(* the session strings of the five protocols that compute one bind the run's own curve, the committee, the round and the nonce *)
+Theorem session_strings_bind_run_context : session_strings_bind transcripts = true.
+Proof. vm_compute. reflexivity. Qed.
+
 Print Assumptions transcripts_as_specified.
+Print Assumptions session_strings_bind_run_context.
 Print Assumptions prover_verifier_agree.
 Print Assumptions session_proofs_are_tagged.
 Print Assumptions source_prover_verifier_agree.
